@@ -29,6 +29,33 @@ V31 = ("constobj", "mqtt.v31")
 TIMED = ("windowPublish", "windowPubRelease", "windowSubscribe", "windowUnsubscribe")
 
 
+def _delay_roots(prog, fq, dn):
+    """The expressions a callLater() delay is computed from: the argument itself, the assignments of the local it names, and - when
+    it is a parameter of a small arming helper - what the callers pass (with their locals)."""
+    roots = []
+    if dn is None or fq not in prog.funcs:
+        return roots
+    f = prog.funcs[fq]
+    roots.append(dn)
+
+    def local_defs(fn, name):
+        return [m.value for m in ast.walk(fn.node) if isinstance(m, (ast.Assign, ast.AugAssign)) and any(
+            isinstance(t, ast.Name) and t.id == name for t in (m.targets if isinstance(m, ast.Assign) else [m.target]))]
+    if isinstance(dn, ast.Name):
+        roots.extend(local_defs(f, dn.id))
+        if dn.id in f.params:
+            idx = f.params.index(dn.id) - (1 if f.params and f.params[0] == "self" else 0)
+            for g in prog.funcs.values():
+                for c in ast.walk(g.node):
+                    if isinstance(c, ast.Call) and (isinstance(c.func, ast.Attribute) and c.func.attr == f.name or isinstance(c.func, ast.Name) and c.func.id == f.name):
+                        arg = c.args[idx] if 0 <= idx < len(c.args) else next((k.value for k in c.keywords if k.arg == dn.id), None)
+                        if arg is not None:
+                            roots.append(arg)
+                            if isinstance(arg, ast.Name):
+                                roots.extend(local_defs(g, arg.id))
+    return roots
+
+
 def version_cond(conds):
     """True/False if the path conditions at an event include version == v31 (or its negation), else None."""
     for c in conds:
@@ -196,6 +223,16 @@ def check(ctx):
                                where=where(x), function=x.func, construct="%s/dup-value/%s" % (x.func, tr.label()),
                                msg="byte 0 is or-ed with %s in context %s (expected %d: DUP=%d << 3)" % (show(val), tr.label(), exp_dup, exp_dup >> 3),
                                trigger=tr.label())
+            # the stored bytes start out with DUP clear: encode() writes the request's own dup field into byte 0, so that field is False
+            # when the request is encoded (the patches above only ever set the bit)
+            if tr.kind == "API" and tr.name == "publish":
+                for e in tr.events:
+                    if e.kind == "ENCODE" and e.a.get("ok") and (e.a.get("cls") or "").endswith(".PUBLISH") and isinstance(e.a.get("fields"), dict) \
+                            and "dup" in e.a["fields"]:
+                        dv = e.a["fields"]["dup"]
+                        ctx.ob("R-DUP", "%s a PUBLISH is encoded with its dup field clear (%s)" % (cq, tr.label()), dv in (("const", False), ("const", 0)),
+                               where=where(e), function=e.func, construct="%s/encoded-dup" % e.func,
+                               msg="publish() encodes the request with dup = %s: the first transmission already carries DUP=1" % show(dv))
             # every request entering a timed window is sent and gets its retry timer on the same path
             for region in region_events(tr.path):
                 for e in region:
@@ -248,6 +285,17 @@ def check(ctx):
                                       and (x.a["recv"][:2] == ("attr", req) or (tr.path.st is not None and any(
                                           o == req and is_interval_field(fl) and v == x.a["recv"] for (o, fl), v in tr.path.st.heap.items())))
                                       for x in tr.events[:i])
+                    # ... and nothing is taken away from it: interval() + (non-negative terms) keeps the lower bound R-GAP proves for
+                    # the interval classes, interval() - anything does not
+                    roots = _delay_roots(a.prog, e.func, dn)
+                    minus = [x for r_ in roots for x in ast.walk(r_) if (isinstance(x, ast.BinOp) and isinstance(x.op, ast.Sub)) or
+                             (isinstance(x, ast.UnaryOp) and isinstance(x.op, ast.USub)) or
+                             (isinstance(x, ast.Constant) and isinstance(x.value, (int, float)) and not isinstance(x.value, bool) and x.value < 0)]
+                    ctx.ob("R-DELAY", "%s nothing is subtracted from the interval's value (%s)" % (cq, short(e.func)), not minus,
+                           where="%s:%d" % (e.file, minus[0].lineno) if minus and hasattr(minus[0], "lineno") else where(e), function=e.func,
+                           construct="%s/delay-reduced" % e.func, nontrivial=False,
+                           msg="the retry delay is computed as %s: less than the interval object yields, so a retransmission can follow the "
+                               "previous transmission sooner than the initial timeout" % (ast.unparse(roots[-1])[:80] if roots else ""))
                     ctx.ob("R-DELAY", "%s retry delay comes from the request's interval object (%s)" % (cq, short(e.func)), dep,
                            where=where(e), function=e.func, construct="%s/delay" % e.func, nontrivial=False,
                            msg="retry timer armed with delay %s" % show(e.a["delay"]))
